@@ -226,20 +226,26 @@ class Code:
         self.tmp += 1; return 'x%d' % self.tmp
 
 
+def int_kind(name): return INTS[name] * 2 + (1 if name.startswith('i') else 0)
+
+
 def gen_flat(ty, expr, c, env=None):
     """append Rust statements pushing the leaves of the value `expr` (a place expression of type ty)"""
     k, a = ty.kind, ty.a
     if k == 'param': return gen_flat(env[a[0]], expr, c, env)
     if k == 'int':
-        if INTS[a[0]] == 16: c.emit('l.push(%s as u128 as u64); l.push(((%s as u128) >> 64) as u64);' % (expr, expr))
-        elif a[0].startswith('i'): c.emit('l.push(%s as u%d as u64);' % (expr, INTS[a[0]] * 8))
-        else: c.emit('l.push(%s as u64);' % expr)
+        # the leaf carries its integer kind (width and signedness): metadata that says u128 for an i128 decodes the same bits to another number
+        kd = int_kind(a[0])
+        if INTS[a[0]] == 16: c.emit('l.push_int(%s as u128 as u64, %d); l.push(((%s as u128) >> 64) as u64);' % (expr, kd, expr))
+        elif a[0].startswith('i'): c.emit('l.push_int(%s as u%d as u64, %d);' % (expr, INTS[a[0]] * 8, kd))
+        else: c.emit('l.push_int(%s as u64, %d);' % (expr, kd))
     elif k == 'bool': c.emit('l.push(%s as u64);' % expr)
     elif k == 'unit': pass
-    elif k == 'compact': c.emit('l.push(%s.0 as u64);' % expr)
+    elif k == 'compact': c.emit('l.push_int(%s.0 as u64, %d);' % (expr, int_kind(a[0])))
     elif k == 'nonzero':
-        if INTS[a[0]] == 16: c.emit('l.push(%s.get() as u128 as u64); l.push(((%s.get() as u128) >> 64) as u64);' % (expr, expr))
-        else: c.emit('l.push(%s.get() as u%d as u64);' % (expr, INTS[a[0]] * 8))
+        kd = int_kind(a[0])
+        if INTS[a[0]] == 16: c.emit('l.push_int(%s.get() as u128 as u64, %d); l.push(((%s.get() as u128) >> 64) as u64);' % (expr, kd, expr))
+        else: c.emit('l.push_int(%s.get() as u%d as u64, %d);' % (expr, INTS[a[0]] * 8, kd))
     elif k == 'opt':
         v = c.fresh(); c.emit('match &%s { None => l.push(0), Some(%s) => { l.push(1);' % (expr, v)); gen_flat(a[0], '(*%s)' % v, c, env); c.emit('} }')
     elif k == 'result':
@@ -265,7 +271,7 @@ def gen_flat(ty, expr, c, env=None):
         for i in range(2): c.emit('if %s.len() > %d { l.push(%s.as_bytes()[%d] as u64); }' % (expr, i, expr, i))
     elif k == 'range': gen_flat(a[0], '%s.start' % expr, c, env); gen_flat(a[0], '%s.end' % expr, c, env)
     elif k == 'rangeinc': gen_flat(a[0], '(*%s.start())' % expr, c, env); gen_flat(a[0], '(*%s.end())' % expr, c, env)
-    elif k == 'duration': c.emit('l.push(%s.as_secs()); l.push(%s.subsec_nanos() as u64);' % (expr, expr))
+    elif k == 'duration': c.emit('l.push_int(%s.as_secs(), %d); l.push_int(%s.subsec_nanos() as u64, %d);' % (expr, int_kind('u64'), expr, int_kind('u32')))
     elif k == 'user':
         d, args = a
         env2 = dict(zip(d.params, [subst(t, env) if env else t for t in args]))
@@ -369,12 +375,17 @@ def gen_dec(reg, tid, c, decl_hint, depth=0):
     if 'primitive' in d:
         p = PRIM_NAMES[d['primitive']]
         if p == 'bool': c.emit('l.push(r.boolean());')
-        elif p in ('u128', 'i128'): c.emit('l.push(r.le(8)); l.push(r.le(8));')
-        elif p in INTS: c.emit('l.push(r.le(%d));' % INTS[p])
+        elif p in ('u128', 'i128'): c.emit('l.push_int(r.le(8), %d); l.push(r.le(8));' % int_kind(p))
+        elif p in INTS: c.emit('l.push_int(r.le(%d), %d);' % (INTS[p], int_kind(p)))
         elif p == 'str':
             c.emit('{ let n = r.compact(); l.push(n); if n > 2 { r.ok = false; } else { let mut i = 0; while i < n { l.push(r.le(1)); i += 1; } } }')
         else: raise ValueError('primitive ' + p)
-    elif 'compact' in d: c.emit('l.push(r.compact());')
+    elif 'compact' in d:
+        # the compact integer's kind is that of the primitive the metadata points at
+        inner = reg[d['compact']]['def']
+        pk = PRIM_NAMES[inner['primitive']] if 'primitive' in inner else None
+        if pk not in INTS: raise ValueError('compact of a non-integer type: %r' % (inner,))
+        c.emit('l.push_int(r.compact(), %d);' % int_kind(pk))
     elif 'composite' in d:
         hint_fields = decl_fields(decl_hint)
         for i, f in enumerate(d['composite']): gen_dec(reg, f['ty'], c, hint_fields[i] if hint_fields and i < len(hint_fields) else None, depth + 1)
@@ -541,7 +552,7 @@ def emit_harnesses(tag, roots, dump, ctor=None, nleaves=40, nbytes=96):
         out += '    assert!(r.ok);\n    assert!(r.p == out.n);\n    got.same(&want);\n    kani::cover!(true);\n    core::mem::forget(v);\n}\n\n'
         natives.append(name)
         out += '#[cfg(not(kani))]\npub fn native_%s(g: &mut Gen) -> bool {\n    let v: %s = %s;\n    let bytes = v.encode();\n    let mut r = Rd { b: &bytes, n: bytes.len(), p: 0, ok: true };\n' % (name, r.rust(), gen_sample(r))
-        out += '    let mut got = Leaves::new();\n    dec_%s(&mut r, &mut got);\n    let mut want = Leaves::new();\n    flat_%s(&v, &mut want);\n    r.ok && r.p == bytes.len() && got.n == want.n && got.n <= NL && got.v[..got.n] == want.v[..want.n]\n}\n\n' % (name, name)
+        out += '    let mut got = Leaves::new();\n    dec_%s(&mut r, &mut got);\n    let mut want = Leaves::new();\n    flat_%s(&v, &mut want);\n    r.ok && r.p == bytes.len() && got.n == want.n && got.n <= NL && got.v[..got.n] == want.v[..want.n] && got.k[..got.n] == want.k[..want.n]\n}\n\n' % (name, name)
     out += '#[cfg(not(kani))]\npub fn native_all(rounds: usize, seed: u64) -> Vec<(&\'static str, usize)> {\n    let mut out = vec![];\n'
     for nm in natives:
         out += '    { let mut g = Gen::new(seed); let mut bad = 0; for _ in 0..rounds { if !native_%s(&mut g) { bad += 1; } } out.push(("%s", bad)); }\n' % (nm, nm.lower())
@@ -572,7 +583,7 @@ def build_c04(thorough, seed=0):
     add(Ty('array', I('u8'), 3)); add(Ty('array', I('u16'), 2)); add(Ty('array', Ty('tuple', [I('u8'), B]), 2))
     def tup(ts): add(Ty('tuple', ts), 'let v: %s = (%s);' % (Ty('tuple', ts).rust(), ''.join('kani::any(), ' for _ in ts)))
     widths = ['u8', 'u16', 'u32', 'u8', 'u64', 'u16']
-    for ar in ([1, 2, 3, 4, 6, 9, 12] + ([15, 18] if thorough else [18])): tup([I(widths[i % 6]) for i in range(ar)])
+    for ar in range(1, 19): tup([I(widths[i % 6]) for i in range(ar)])
     tup([I('u8'), Ty('tuple', [B, I('i16')]), Ty('opt', I('u32'))])
     add(Ty('opt', I('u32'))); add(Ty('opt', Ty('opt', I('u8')))); add(Ty('result', I('u8'), I('u16'))); add(Ty('result', Ty('unit'), I('u32')), 'let v: Result<(), u32> = if kani::any() { Ok(()) } else { Err(kani::any()) };')
     add(Ty('boxed', I('u16'))); add(Ty('rc', I('u16')), 'let v: Rc<u16> = Rc::new(kani::any());'); add(Ty('arc', I('u32')), 'let v: Arc<u32> = Arc::new(kani::any());')
@@ -589,7 +600,7 @@ def build_c04(thorough, seed=0):
     add(Ty('binaryheap', I('u16')), 'let mut v: BinaryHeap<u16> = BinaryHeap::new(); if kani::any() { v.push(kani::any()); }')
     for n in ['u8', 'u16', 'u32', 'u64']: add(Ty('compact', n), 'let v: Compact<%s> = Compact(kani::any());' % n)
     add(Ty('range', I('u8')), 'let v: core::ops::Range<u8> = kani::any()..kani::any();'); add(Ty('rangeinc', I('u16')), 'let v: core::ops::RangeInclusive<u16> = kani::any()..=kani::any();')
-    for n in ['u8', 'u16', 'u32', 'u64', 'i8', 'i32', 'i64'] + (['i16', 'u128', 'i128'] if thorough else []): add(Ty('nonzero', n))
+    for n in ['u8', 'u16', 'u32', 'u64', 'u128', 'i8', 'i16', 'i32', 'i64', 'i128']: add(Ty('nonzero', n))      # every row of impl_for_non_zero!
     add(Ty('duration'), 'let nanos: u32 = kani::any(); kani::assume(nanos < 1_000_000_000); let v = core::time::Duration::new(kani::any(), nanos);')
     add(Ty('phantom', I('u8')), 'let v: PhantomData<u8> = PhantomData;')
     PH = lambda t: Ty('phantom', t)
